@@ -431,4 +431,8 @@ for _l in R.lemmas.values():
     if _l.replay is None:
         _l.replay = generic_replay(_l.func, [proto, _sys.modules[__name__]])
 
+for _lid in ['L2.1', 'L2.1b', 'L2.2', 'L2.4', 'L2.5']:
+    if _lid in R.lemmas:
+        R.lemmas[_lid].api = True
+
 get_harness = R.get_harness
